@@ -23,6 +23,17 @@ Fixpoint mem_pair (a b : string) (l : list (string * string)) : bool :=
   | (x, y) :: r => (String.eqb a x && String.eqb b y) || mem_pair a b r
   end.
 
+(* the case-fold representative of every character of the case (absent = itself): ASCII
+   lower-casing for bytes patterns, sre's equivalence classes for str patterns; whether it is
+   the engine's is checked by table_str_ok on the recorded answers of the string terminals *)
+Fixpoint assoc_ascii (c : ascii) (l : list (ascii * ascii)) : ascii :=
+  match l with
+  | [] => c
+  | (a, b) :: r => if Ascii.eqb c a then b else assoc_ascii c r
+  end.
+Definition fold_tab (l : list (ascii * ascii)) : ascii -> ascii := fun c => assoc_ascii c l.
+Definition ch (n : nat) : ascii := ascii_of_nat n.
+
 Definition m_tab (input : string) (tab : list (list (string * nat))) (unl : list (string * string))
   : term -> string -> nat -> option nat :=
   fun t txt p =>
@@ -78,18 +89,19 @@ Definition end_ok (e : lex_end) (code p : nat) : bool :=
 
 (* the hypotheses "for string terminals m is the prefix test and max_width = len(value)",
    checked on the recorded table *)
-Definition table_str_ok (terms : list term) (text : string) (tab : list (list (string * nat))) : bool :=
+Definition table_str_ok (fold : ascii -> ascii) (terms : list term) (text : string) (tab : list (list (string * nat))) : bool :=
   forallb (fun t =>
     tre t ||
     Z.eqb (tmaxw t) (tvlen t) &&
     forallb (fun p =>
-      match assoc_nat (tname t) (nth p tab []), str_match_at t text p with
+      match assoc_nat (tname t) (nth p tab []), str_match_at fold t text p with
       | Some a, Some b => Nat.eqb a b
       | None, None => true
       | _, _ => false
       end) (seq 0 (S (String.length text)))) terms.
 
 Record bcase := mkB {
+  b_fold : list (ascii * ascii);
   b_terms : list term;                       (* conf.terminals, original order *)
   b_ign : list string;                       (* conf.ignore *)
   b_text : string;
@@ -107,14 +119,14 @@ Record bcase := mkB {
 Definition check_basic (c : bcase) : bool :=
   let m := m_tab (b_text c) (b_tab c) (b_unl c) in
   let st := sort_terms (b_terms c) in
-  table_str_ok (b_terms c) (b_text c) (b_tab c) &&
+  table_str_ok (fold_tab (b_fold c)) (b_terms c) (b_text c) (b_tab c) &&
   strs_eqb (map tname st) (o_sorted c) &&
   strs_eqb (callback_keys m st) (o_cbkeys c) &&
   match make_lexer m (cok_limit (b_limit c)) (b_terms c) (b_ign c) with
   | None => false
   | Some L =>
       strss_eqb (map (map tname) (lx_mres L)) (o_mres c) &&
-      let '(ts, e) := lex_from m (b_text c) L 0 in
+      let '(ts, e) := lex_from (fold_tab (b_fold c)) m (b_text c) L 0 in
       match o_code c with
       | 2 => toks_prefix (o_toks c) ts
       | code => toks_eqb ts (o_toks c) && end_ok e code (o_pos c)
@@ -124,6 +136,7 @@ Definition check_basic (c : bcase) : bool :=
 (* ---------------------------------------------------------------- contextual *)
 
 Record ccase := mkC {
+  c_fold : list (ascii * ascii);
   c_terms : list term;
   c_ign : list string;
   c_always : list string;
@@ -152,9 +165,9 @@ Definition check_ctx (c : ccase) : bool :=
   let acc := fun i : nat => nth i (c_accepts c) [] in
   let types := map (fun o : otok => fst (fst o)) (c_toks c) in
   let n := List.length (c_accepts c) in
-  let step := fun (i : nat) (ty : string) =>
-                if String.eqb ty (nth i types EmptyString) && (S i <? n) then Some (S i) else None in
-  table_str_ok (c_terms c) (c_text c) (c_tab c) &&
+  let step := fun (i : nat) (t : tok) =>
+                if String.eqb (ktype t) (nth i types EmptyString) && (S i <? n) then Some (S i) else None in
+  table_str_ok (fold_tab (c_fold c)) (c_terms c) (c_text c) (c_tab c) &&
   (* the sub-lexers' terminal lists *)
   forallb (fun i => match sub_lexer m cok nat acc (c_terms c) (c_ign c) (c_always c) i with
                     | Some L => strs_eqb (map tname (lx_terms L)) (nth i (c_subterms c) [])
@@ -162,7 +175,7 @@ Definition check_ctx (c : ccase) : bool :=
   match make_lexer m cok (c_terms c) (c_ign c) with
   | None => false
   | Some root =>
-      let '(ts, e) := ctx_lex m cok (c_text c) nat acc step (S (S (String.length (c_text c))))
+      let '(ts, e) := ctx_lex (fold_tab (c_fold c)) m cok (c_text c) nat acc step (S (S (String.length (c_text c))))
                               (c_terms c) (c_ign c) (c_always c) root 0 0 in
       toks_eqb ts (c_toks c) && cend_ok e c
   end.
